@@ -988,7 +988,7 @@ class Twist3(SMTwist):
         - ``s * X`` performs elementwise multiplication of the elements of ``X`` by ``s``
         """
         if base.isscalar(left):
-            return Twist3(right.S * left)
+            return Twist3([x * left for x in right.data])
         else:
             raise ValueError('Twist3 *, incorrect left operand')
 
@@ -1456,7 +1456,7 @@ class Twist2(SMTwist):
 
     def __rmul__(self, left):
         if base.isscalar(left):
-            return Twist2(self.S * left)
+            return Twist2([x * left for x in self.data])
         else:
             raise ValueError('twist *, incorrect left operand')
 
